@@ -468,7 +468,7 @@ def run_C11(ctx):
     pre += corpora.cut_after_bad(bases[:nb] + [c for c in bases if c[2] == "c"][:nb // 6])
     # plus: bounded-exhaustive tails after every start-line context (one, two or three more bytes have arrived,
     # any of which may be wrong -- a look-ahead fast path only fires once enough bytes are there)
-    pre += start_tails(3 if ctx.quick else 4)
+    pre += start_tails(3)      # (length 4 is 2.8 M states x ~40 completions: tens of GB in the thorough tier)
     res = execute("C11", pre, want_ref=True)
     ctx.broken += res.errors
     partials = []
@@ -495,18 +495,28 @@ def run_C11(ctx):
         if k not in seen:
             seen.add(k)
             uniq.append(c)
-    comp = []
-    for c in uniq:
-        for j, s in enumerate(COMPLETIONS):
-            comp.append(("A", "%s~%d" % (c[1], j), c[2], c[3], c[4], 64, c[6] + s))
-            if any(x >= 128 for x in c[6]):
-                comp.append(("A", "%s~a%d" % (c[1], j), c[2], c[3], c[4], 64, ascii_variant(c[6]) + s))
-    res2 = execute("C11-comp", comp, want_model=False)
-    ctx.broken += res2.errors
+    # the completion search is 46 suffixes per Partial state: bound it (a uniform sample of the states in the thorough
+    # tier) and run it in batches, so that memory stays in the low GB
+    cap = 300000
+    if len(uniq) > cap:
+        step = len(uniq) / float(cap)
+        uniq = [uniq[int(i * step)] for i in range(cap)]
+        ctx.notes.append("completion search on a uniform sample of %d Partial states" % cap)
     ok = set()
-    for cid, iraw in res2.impl.items():
-        if Obs(iraw).kindclass == "C":
-            ok.add(cid.rsplit("~", 1)[0])
+    B = 60000
+    for b0 in range(0, len(uniq), B):
+        comp = []
+        for c in uniq[b0:b0 + B]:
+            for j, s in enumerate(COMPLETIONS):
+                comp.append(("A", "%s~%d" % (c[1], j), c[2], c[3], c[4], 64, c[6] + s))
+                if any(x >= 128 for x in c[6]):
+                    comp.append(("A", "%s~a%d" % (c[1], j), c[2], c[3], c[4], 64, ascii_variant(c[6]) + s))
+        res2 = execute("C11-comp", comp, want_model=False, use_cache=(len(uniq) <= B))
+        ctx.broken += res2.errors
+        for cid, iraw in res2.impl.items():
+            if Obs(iraw).kindclass == "C":
+                ok.add(cid.rsplit("~", 1)[0])
+        del comp, res2
     for c in uniq:
         ctx.nontrivial.add(nontrivial_key(c))
         ctx.count("partial:" + c[2])
